@@ -31,14 +31,13 @@ Definition delete_ (lsb0 : bool) (b : bits) (n pos : Z) : res bits :=
 (* ---------------- BitArray public mutators ---------------- *)
 (* insert(bs, pos) ; `bs is self` copies first, so the value inserted is the old content *)
 Definition ba_insert (lsb0 : bool) (b bs : bits) (pos : Z) : res bits :=
-  if zlen bs =? 0 then Ok b else
   let pos := if pos <? 0 then pos + zlen b else pos in
-  if (0 <=? pos) && (pos <=? zlen b) then insert_ lsb0 b bs pos else Err ValueError.
+  if (0 <=? pos) && (pos <=? zlen b) then (if zlen bs =? 0 then Ok b else insert_ lsb0 b bs pos) else Err ValueError.
 
 Definition ba_overwrite (lsb0 : bool) (same_object : bool) (b bs : bits) (pos : Z) : res bits :=
-  if zlen bs =? 0 then Ok b else
   let pos := if pos <? 0 then pos + zlen b else pos in
-  if (pos <? 0) || (pos >? zlen b) then Err ValueError else overwrite_ lsb0 same_object b bs pos.
+  if (pos <? 0) || (pos >? zlen b) then Err ValueError else
+  if zlen bs =? 0 then Ok b else overwrite_ lsb0 same_object b bs pos.
 
 (* append / prepend: the method table swaps them under lsb0
    _append_msb0 = _addright ; _append_lsb0 = _addleft *)
